@@ -421,12 +421,12 @@ func (c *Check) parseSites(prefix string, rec map[string]map[string]*Builder, in
 						m := map[string]*Term{}
 						keyed := false
 						for i, a := range ev.CI.args {
+							m[fmt.Sprintf("P%d", i)] = a
 							root := stripConv(a)
 							for root.Op == "slice" {
 								root = stripConv(root.A[0])
 							}
 							if isKeyTerm(root) {
-								m[fmt.Sprintf("P%d", i)] = a
 								keyed = true
 							}
 						}
@@ -522,8 +522,8 @@ func (c *Check) regionOf(t *Term, rec map[string]map[string]*Builder) (fam strin
 	switch {
 	case lo.IsAt("_") || lo.IsAt("#0"):
 	case isConstTerm(lo):
-		var n int
-		if _, err := fmt.Sscanf(lo.At, "#%d", &n); err != nil {
+		n, okn := litInt(lo)
+		if !okn {
 			return fam, a, b, shape, "low bound " + lo.String() + " is not understood"
 		}
 		i := a
